@@ -105,6 +105,26 @@ def run(ctx):
                     ctx.violation("CLI-6", (a["name"], "%s = %s" % (kind, v)), "argument `%s` declares %s = %s, which is not a documented relation: clap then refuses command lines "
                                   "(usage error, exit status 2) for which the library with the same settings returns a pattern" % (a["name"], kind, v))
     ctx.floor("CLI-6", "documented relations found in the argument definitions", nrel, sum(len(v) for v in allowed.values()))
+    # CLI-7: defaults declared for value-taking arguments equal the library's defaults (a flag that is not given must behave like a setter that is not called)
+    ctx.rule("CLI-7", "every default_value declared for a CLI argument equals the library's default for the setting it feeds (thresholds: 1)")
+    ndef = 0
+    for a in bin_.attrs:
+        if a["kind"] != "field":
+            continue
+        for at in a["attrs"]:
+            if at["path"] != "arg":
+                continue
+            for mm in re.finditer(r"\bdefault_value(?:_t|s_t|s)?\s*=\s*(\"[^\"]*\"|[A-Za-z_0-9:.]+)", at["text"]):
+                ndef += 1
+                val = mm.group(1).strip('"')
+                if val in ("1", "1u32", "1_u32"):
+                    ctx.ok("CLI-7", "%s: default %s" % (a["name"], val), None)
+                else:
+                    ctx.violation("CLI-7", (a["name"], "default " + val), "argument `%s` defaults to %s while the library's default for that setting is 1: a command line without the flag "
+                                  "no longer corresponds to a builder on which the setter was not called" % (a["name"], val))
+            if re.search(r"\bdefault_missing_value|\bdefault_value_if", at["text"]):
+                ctx.undecided("CLI-7", a["name"], "conditional default in the argument definition")
+    ctx.floor("CLI-7", "declared defaults", ndef, 2)
     hi = find_handle_input(bin_)
     if hi is None:
         ctx.anchor_lost("CLI-1", "bin function calling RegExpBuilder::build")
